@@ -133,14 +133,18 @@ Qed.
 
 (* the returned point lies on the line through the centroid along the unit axis u, and its coordinate along u is
    the percentile of the points' coordinates along u *)
-Lemma percentile_point_spec ps axis q : ps <> [] -> almost_zero ROps axis = false ->
+Lemma percentile_q_in_range q : 0 <= q <= 100 -> Rltb q 0 || Rltb 100 q = false.
+Proof. intros H. destruct (Rltb_spec q 0); [lra|]. destruct (Rltb_spec 100 q); [lra|]. reflexivity. Qed.
+
+Lemma percentile_point_spec ps axis q : ps <> [] -> almost_zero ROps axis = false -> 0 <= q <= 100 ->
   let u := vnormalize ROps axis in let c := centroid ROps ps in
   let sel := percentile_value ROps (map (fun p => vdot ROps p u) ps) q in
   exists r, percentile ROps ps axis q = Ok r /\ vnorm2 ROps u = 1 /\
             r = vadd ROps c (vscale ROps (sel - vdot ROps c u) u) /\ vdot ROps r u = sel.
 Proof.
-  intros Hne Hz. cbv zeta. pose proof (vnormalize_unit axis (almost_zero_false_nonzero axis Hz)) as Hu.
-  unfold percentile. destruct ps as [|p0 pr]; [contradiction|]. rewrite Hz.
+  intros Hne Hz Hq. cbv zeta. pose proof (vnormalize_unit axis (almost_zero_false_nonzero axis Hz)) as Hu.
+  unfold percentile. destruct ps as [|p0 pr]; [contradiction|]. rewrite Hz. unfold n0; rops.
+  rewrite (percentile_q_in_range q Hq).
   eexists. split; [reflexivity|]. split; [exact Hu|]. unfold vreject. rewrite (unit_normalize_id _ Hu).
   generalize (percentile_value ROps (map (fun p => vdot ROps p (vnormalize ROps axis)) (p0 :: pr)) q). intros sel.
   generalize dependent (vnormalize ROps axis). intros u Hu. generalize (centroid ROps (p0 :: pr)). intros c.
@@ -148,8 +152,14 @@ Proof.
 Qed.
 Lemma percentile_errors ps axis q :
   (ps = [] -> percentile ROps ps axis q = Raise ValueError) /\
-  (almost_zero ROps axis = true -> percentile ROps ps axis q = Raise ValueError).
-Proof. split; [intros ->; reflexivity|]. intros H. unfold percentile. destruct ps; [reflexivity|]. rewrite H. reflexivity. Qed.
+  (almost_zero ROps axis = true -> percentile ROps ps axis q = Raise ValueError) /\
+  (q < 0 \/ 100 < q -> percentile ROps ps axis q = Raise ValueError).
+Proof.
+  split; [intros ->; reflexivity|]. split.
+  - intros H. unfold percentile. destruct ps; [reflexivity|]. rewrite H. reflexivity.
+  - intros H. unfold percentile. destruct ps; [reflexivity|]. destruct (almost_zero ROps axis); [reflexivity|].
+    unfold n0; rops. destruct (Rltb_spec q 0); [reflexivity|]. destruct (Rltb_spec 100 q); [reflexivity|]. lra.
+Qed.
 
 Lemma Int_part_IZR z : Int_part (IZR z) = z.
 Proof.
@@ -251,4 +261,21 @@ Proof.
   intros [A B]. unfold Rfloor, Int_part. assert (E : (z + 1)%Z = up x).
   { apply tech_up; rewrite plus_IZR; simpl; lra. }
   rewrite <- E. lia.
+Qed.
+
+(* the absolute threshold of vg.almost_zero rejects genuine (non-zero) axes: witness axis (1e-9, 0, 0) *)
+Lemma percentile_tiny_axis_rejected :
+  exists ps axis q, ps <> [] /\ axis <> V3 0 0 0 /\ 0 <= q <= 100 /\ percentile ROps ps axis q = Raise ValueError.
+Proof.
+  exists [V3 0 0 0; V3 1 2 3], (V3 (1 / 1000000000) 0 0), 50. split; [discriminate|]. split.
+  - intros H. injection H as H. lra.
+  - split; [lra|]. apply (proj1 (proj2 (percentile_errors _ _ _))). unfold almost_zero, atol8, nfrac; rops; cbn [vx vy vz]. rewrite Rabs_R0.
+    rewrite Rabs_pos_eq by lra.
+    destruct (Rleb_spec (1 / 1000000000) (3022314549036573 / 302231454903657293676544)) as [_|H]; [|exfalso; lra].
+    destruct (Rleb_spec 0 (3022314549036573 / 302231454903657293676544)) as [_|H]; [reflexivity|exfalso; lra].
+Qed.
+Lemma almost_zero_example : almost_zero ROps (V3 1 0 0) = false.
+Proof.
+  unfold almost_zero, atol8, nfrac; rops; cbn [vx vy vz]. rewrite Rabs_R1.
+  destruct (Rleb_spec 1 (3022314549036573 / 302231454903657293676544)) as [H|_]; [exfalso; lra|reflexivity].
 Qed.
